@@ -302,6 +302,12 @@ class Writer:
             which = 'first' if n == 0 else ('last' if n == len(parts) - 1 else 'mid')
             self.emit(kind if n == 0 else 'settings_cont', path, part, depth if n == 0 else depth + 1, which)
 
+    def enote(self, note):
+        """an absent note may be spelled as a declared empty one (same content: Note('') either way)"""
+        if note is None and self.st.chance(0.1):
+            return ''
+        return note
+
     def note_setting(self, text: str) -> List[Tok]:
         st = self.st
         return [Tok(st.kw('note') + ':', 'kw'), Tok(spell_string(text, st, note=True), 'str')]
@@ -327,8 +333,9 @@ class Writer:
         self.emit('project_open', path, [Tok(st.kw('Project'), 'kw'), Tok(spell_name(p.name, st), 'name'),
                                           Tok('{', 'punct')], 0)
         body = [('item', kv) for kv in p.items]
-        if p.note is not None:
-            body.insert(st.pick(range(len(body) + 1)) if st.vary else len(body), ('note', p.note))
+        pnote = self.enote(p.note)
+        if pnote is not None:
+            body.insert(st.pick(range(len(body) + 1)) if st.vary else len(body), ('note', pnote))
         for i, (k, v) in enumerate(body):
             self.blank(path)
             if k == 'note':
@@ -349,7 +356,8 @@ class Writer:
         for j, it in enumerate(e.items):
             self.blank(path)
             head = [Tok(spell_name(it.name, st), 'name')]
-            items = [self.note_setting(it.note)] if it.note is not None else []
+            inote = self.enote(it.note)
+            items = [self.note_setting(inote)] if inote is not None else []
             self.settings('enum_item', path + ('item', j), head, items, 1)
         self.blank(path)
         self.emit('enum_close', path, [Tok('}', 'punct')], 0)
@@ -388,8 +396,9 @@ class Writer:
             items.append([Tok(st.kw('increment'), 'kw')])
         if c.default is not None:
             items.append([Tok(st.kw('default') + ':', 'kw'), spell_default(c.default, st)])
-        if c.note is not None:
-            items.append(self.note_setting(c.note))
+        cnote = self.enote(c.note)
+        if cnote is not None:
+            items.append(self.note_setting(cnote))
         # inline refs keep their relative order (it is content: db.refs order)
         other = st.perm(items)
         refs = [self.inline_ref(r) for r in c.refs]
@@ -418,8 +427,9 @@ class Writer:
             items.append([Tok(st.kw('type') + ':', 'kw'), Tok(st.kw(ix.type), 'kw')])
         if ix.name is not None:
             items.append([Tok(st.kw('name') + ':', 'kw'), Tok(spell_string(ix.name, st), 'str')])
-        if ix.note is not None:
-            items.append(self.note_setting(ix.note))
+        xnote = self.enote(ix.note)
+        if xnote is not None:
+            items.append(self.note_setting(xnote))
         self.settings('index', path, head, st.perm(items), depth)
 
     def table(self, i: int, t: ATable):
@@ -429,16 +439,17 @@ class Writer:
         if t.alias:
             head += [Tok('as', 'kw'), Tok(spell_name(t.alias, st), 'name')]
         items: List[List[Tok]] = []
-        note_in_header = t.note is not None and st.chance(0.35)
+        tnote = self.enote(t.note)
+        note_in_header = tnote is not None and st.chance(0.35)
         if t.header_color:
             items.append([Tok(st.kw('headercolor') + ':', 'kw'), Tok(t.header_color, 'color')])
         if note_in_header:
-            items.append(self.note_setting(t.note))
+            items.append(self.note_setting(tnote))
         self.settings('table_open', path, head, st.perm(items), 0, tail_toks=[Tok('{', 'punct')])
         # body: columns keep their order; note / index block / properties anywhere between them
         body: List[Tuple[str, Any]] = [('column', j) for j in range(len(t.columns))]
         extras = []
-        if t.note is not None and not note_in_header:
+        if tnote is not None and not note_in_header:
             extras.append(('note', None))
         if t.indexes:
             extras.append(('indexes', None))
@@ -456,7 +467,7 @@ class Writer:
             if k == 'column':
                 self.column(path + ('column', v), t.columns[v], 1)
             elif k == 'note':
-                self.note_lines(t.note, path + ('note',), 1)
+                self.note_lines(tnote, path + ('note',), 1)
             elif k == 'prop':
                 self.emit('table_prop', path + ('prop', v[0]),
                           [Tok(spell_name(v[0], st), 'name'), Tok(':', 'punct', ''),
@@ -509,19 +520,20 @@ class Writer:
         path = ('group', i)
         head = [Tok(st.kw('TableGroup'), 'kw'), Tok(spell_name(g.name, st), 'name')]
         items: List[List[Tok]] = []
-        note_in_header = g.note is not None and st.chance(0.4)
+        gnote = self.enote(g.note)
+        note_in_header = gnote is not None and st.chance(0.4)
         if g.color:
             items.append([Tok(st.kw('color') + ':', 'kw'), Tok(g.color, 'color')])
         if note_in_header:
-            items.append(self.note_setting(g.note))
+            items.append(self.note_setting(gnote))
         self.settings('group_open', path, head, st.perm(items), 0, tail_toks=[Tok('{', 'punct')])
         body: List[Tuple[str, Any]] = [('item', k) for k in g.items]
-        if g.note is not None and not note_in_header:
+        if gnote is not None and not note_in_header:
             body.insert(st.pick(range(len(body) + 1)) if st.vary else len(body), ('note', None))
         for j, (k, v) in enumerate(body):
             self.blank(path)
             if k == 'note':
-                self.note_lines(g.note, path + ('note',), 1)
+                self.note_lines(gnote, path + ('note',), 1)
             else:
                 self.emit('group_item', path + ('item', j), [Tok(self.qual(*v), 'name')], 1)
         self.blank(path)
